@@ -165,6 +165,9 @@ func schemaForArray(typ reflect.Type, open []reflect.Type) (Schema, error) {
 }
 
 func schemaForMap(typ reflect.Type, open []reflect.Type) (Schema, error) {
+	if typ.Key().Kind() != reflect.String {
+		return Schema{}, fmt.Errorf("type %s not supported: map keys must be strings", typ)
+	}
 	s, err := schemaForTypeIn(typ.Elem(), open)
 	if err != nil {
 		return Schema{}, err
